@@ -63,7 +63,9 @@ def workload(prop, tier, seed, stream, k):
         L = setup + rnd.sample(["read_prob p1 @W@/nope.lp LP", "read_prob p1 @W@/nope.mps MPS", "read_prob p1 @W@/nope.lp.gz LP", "read_prob p1 @W@/nope.mps.bz2 MPS",
                                 "read_basis p0 @W@/nope.bas b1", "read_and_load_basis p0 @W@/nope.bas", "write_prob p0 @W@/nodir/x.lp LP", "write_prob p0 @W@/nodir/x.mps.gz MPS",
                                 "write_basis p0 - @W@/nodir/x.bas", "read_prob p1 @W@ LP", "write_prob p0 @W@/x.foo FOO", "get_basis p0 b2", "dumpsol p0 1",
-                                "tableau p0", "get_infeas p0", "write_basis p0 - @W@/own.bas", "verify p0 b0 1"], 6)
+                                "tableau p0", "get_infeas p0", "write_basis p0 - @W@/own.bas", "verify p0 b0 1",
+                                # a file that opens but cannot take the data (write or close fails)
+                                "write_prob p0 /dev/full LP", "write_prob p0 /dev/full MPS", "write_prob_file p0 /dev/full LP", "write_basis p0 - /dev/full"], 7)
         L = [x for x in L if not (x.startswith("verify") and "solved" not in " ".join(setup))]
     elif stream == "verdict":
         m = gen_lp.family(rnd, rnd.choice(["small-rand", "planted-opt", "degenerate", "planted-inf", "thin"]))
